@@ -88,6 +88,25 @@ NEEDS = {
     "C17-4": "same change as C12-3 / C07-3 (structured mode merges --input-parameters into the first data file only)",
     "C18-4": "url_decode() with a string literal argument (in place or via a literal-bound variable): treated as an unsupported value and skipped",
     "C19-4": "`rulegen -t T -o F` when F already exists and is longer than the new rules: the file is not truncated, stale text follows the rules",
+    "C01-5": "a range literal written `r(lo, hi]` and a value exactly on one of the bounds (parsed as `r[lo, hi)`)",
+    "C02-5": "a `some` query block that selects values and whose body is SKIP for every one of them: FAIL instead of SKIP",
+    "C03-5": "prefix not/NOT/! in front of `is_null` or `is_float` (single negation) on a value that resolves: ignored",
+    "C04-5": "a `when` guard of >= 2 lines whose last line evaluates to SKIP (binary comparison on an empty selection) after a passing line: guard status = last line",
+    "C05-5": "`parse-tree -o F` / `rulegen -o F` when F already holds longer content: not truncated, so the bytes depend on an earlier run",
+    "C06-5": "`test -r R -t <dir>` with the mismatching (or malformed) test file in a sub-directory of <dir>: silently skipped, exit 0",
+    "C07-5": "`--structured` with two rules files that share a base name in different directories (a/policy.guard, b/policy.guard): the second is skipped; console and payload still evaluate it",
+    "C08-5": "a float NaN in the document (YAML `nan` / `.nan`, `NaN` token in a .json file read by validate, parse_float(\"NaN\")) compared with another float: expect() panics",
+    "C09-5": "same change class as C07-5, seeded in StructuredEvaluator::evaluate: rules files with equal base names are taken for one file, the combined report is not the union",
+    "C10-5": "a filter on a list of lists directly followed by an unnamed `[*]` and a further part: the `[*]` is skipped, unresolved points are reported one level too high",
+    "C11-5": "`!Sub [..]` / `!GetAtt [a, b]` (list form of the two tags that accept both shapes) in a document loaded by the test command / library: not expanded",
+    "C12-5": "`validate --payload` (plain) with a failing rules entry followed by a passing one: exit code = status of the last entry",
+    "C13-5": "`X in [..]` with a list mixing types where a differently typed element precedes the equal one (or anywhere for `not in`): NotComparable aborts the membership test",
+    "C14-5": "file-level clauses joined by `or` (outside any rule, not type blocks): each alternative becomes its own conjunct of the default rule",
+    "C15-5": "a parameterised call with >= 2 query arguments whose earlier argument is written `some <query>`: later arguments lose their unresolved entries",
+    "C16-5": "a YAML test input using the short form `!Condition x`: `test` expands it to Fn::Condition, validate to Condition",
+    "C17-5": "plain output, >= 2 data files, a top-level key conflict between the parameters and one data file: that file is skipped with a warning, exit 0",
+    "C18-5": "parse_boolean() on a boolean word in mixed capitalisation (tRuE, fAlSe): error instead of the documented case-insensitive conversion",
+    "C19-5": "a resource type containing a character outside [A-Za-z0-9:_] (Custom::Log-Forwarder): the emitted rule selects the sanitised type name and SKIPs",
 }
 
 
